@@ -29,7 +29,7 @@ def Checks (c : Cfg) (v : Val) : Prop :=
 def Converts (c : Cfg) (v w : Val) : Prop :=
   match c.schema with
   | none => w = v
-  | some s => s v = some w
+  | some s => s v = .ok w
 
 def Accepts (c : Cfg) (v w : Val) : Prop := Allows c v ∧ Checks c v ∧ Converts c v w
 
@@ -459,6 +459,99 @@ theorem exp_value_is_last_accepted (e : ExpCfg) (s : ExpState) (pre post : List 
           · exact h1
         · exact h1
 
+/-! ### a raising schema refuses, whatever it raises -/
+
+/-- **raising_schema_rejects**: if the schema function raises for `v` – an exception of ANY class
+    `k` (ValueError, TypeError, KeyError, ZeroDivisionError, AttributeError, a library's own
+    `Exception` subclass) – the value is refused: `_validate` reports a refusal, the put event
+    returns False and the output is unchanged -/
+theorem raising_schema_rejects (c : Cfg) (s : Val → Except Exc Val) (v out : Val) (k : Exc)
+    (hs : c.schema = some s) (hk : s v = .error k) :
+    validate c v = none ∧ (put c out v).res = .ret false ∧ (put c out v).out = out := by
+  have hv : validate c v = none := by
+    cases h : validate c v with
+    | none => rfl
+    | some w =>
+      have := ((validate_iff c v w).1 h).2.2
+      simp [Converts, hs, hk] at this
+  exact ⟨hv, (put_none c out v hv).2, (put_none c out v hv).1⟩
+
+/-- … likewise for an InputExp: nothing changes, not even the running timer -/
+theorem exp_raising_schema_rejects (e : ExpCfg) (s : Val → Except Exc Val) (st : ExpState)
+    (v : Val) (k : Exc) (hs : e.v.schema = some s) (hk : s v = .error k) :
+    (putExp e st v).1 = st ∧ (putExp e st v).2.1 = false := by
+  have hv := (raising_schema_rejects e.v s v .undef k hs hk).1
+  simp [putExp, hv]
+
+/-- the class of the exception is never looked at: re-labelling the exceptions of a schema by an
+    arbitrary map `f` of classes changes no validation result and no call of user code -/
+theorem exception_class_irrelevant (c : Cfg) (f : Exc → Exc) (v : Val) :
+    validateT { c with schema := c.schema.map (fun s x => (s x).mapError f) } v = validateT c v := by
+  rcases c with ⟨a, ch, sc⟩
+  cases sc with
+  | none => rfl
+  | some s =>
+    have key : ∀ x, ((s x).mapError f).toOption = (s x).toOption := by
+      intro x; cases s x <;> rfl
+    simp only [validateT, checkStage, schemaStage, Option.map, key]
+
+/-! ### `allowed` is a snapshot -/
+
+/-- the values submitted by a sequence of puts interleaved with caller-side mutations -/
+def wputs (ops : List WOp) : List Val :=
+  ops.filterMap fun | .put v => some v | .mutate _ => none
+
+/-- **allowed_is_snapshot**: whatever the caller does with its own collection object after the
+    block has been created (any sequence of clear / add / remove, at any points between the
+    events), the block validates against the contents at construction time: its validators are
+    unchanged and its output is the one the puts alone produce -/
+theorem allowed_is_snapshot (w : World) (ops : List WOp) :
+    (w.run ops).cfg = w.cfg ∧ (w.run ops).out = run w.cfg w.out (wputs ops) := by
+  induction ops generalizing w with
+  | nil => exact ⟨rfl, rfl⟩
+  | cons op ops ih =>
+    have h := ih (w.step op)
+    cases op with
+    | put v =>
+      simp only [World.run, List.foldl_cons] at h ⊢
+      simp only [World.step, World.put] at h ⊢
+      simpa [wputs, run_cons] using h
+    | mutate m =>
+      simp only [World.run, List.foldl_cons] at h ⊢
+      simp only [World.step, World.mutate] at h ⊢
+      simpa [wputs] using h
+
+/-- in particular every later validation is the validation with the construction-time set -/
+theorem validate_after_caller_mutations (allowed : Option (List Val)) (check : Option (Val → Val))
+    (schema : Option (Val → Except Exc Val)) (ms : List Mut) (v : Val) :
+    validate ((World.new allowed check schema).run (ms.map .mutate)).cfg v =
+      validate ⟨allowed, check, schema⟩ v := by
+  rw [(allowed_is_snapshot _ _).1]; rfl
+
+def ewops (ops : List EWOp) : List ExpOp :=
+  ops.filterMap fun | .op o => some o | .mutate _ => none
+
+/-- the same for an InputExp -/
+theorem exp_allowed_is_snapshot (w : ExpWorld) (ops : List EWOp) :
+    (w.run ops).e = w.e ∧ (w.run ops).s = runExp w.e w.s (ewops ops) := by
+  induction ops generalizing w with
+  | nil => exact ⟨rfl, rfl⟩
+  | cons op ops ih =>
+    have h := ih (w.step op)
+    simp only [ExpWorld.run, List.foldl_cons] at h ⊢
+    cases op with
+    | op o =>
+      cases o with
+      | put v =>
+        simp only [ExpWorld.step, ExpWorld.put] at h ⊢
+        simpa [ewops, runExp_cons, stepExp] using h
+      | wait d =>
+        simp only [ExpWorld.step, ExpWorld.wait] at h ⊢
+        simpa [ewops, runExp_cons, stepExp] using h
+    | mutate m =>
+      simp only [ExpWorld.step, ExpWorld.mutate] at h ⊢
+      simpa [ewops] using h
+
 /-! ### tie to the source and non-vacuity -/
 
 /-- the tables extracted from the current code are the ones the model implements: `Input` handles
@@ -475,7 +568,8 @@ theorem tables_match_model :
 def exCfg : Cfg :=
   ⟨some [Val.int 1, Val.int 2],
    some (fun v => if v = Val.int 2 then Val.str "" else Val.int 7),
-   some (fun v => if v = Val.bool true then some (Val.str "a") else if v = Val.int 1 then some (Val.int 1) else none)⟩
+   some (fun v => if v = Val.bool true then .ok (Val.str "a") else if v = Val.int 1 then .ok (Val.int 1)
+     else if v = Val.flt 1 then .error .zeroDivisionError else .error .custom)⟩
 
 example : Accepts exCfg (Val.bool true) (Val.str "a") ∧ Val.str "a" ≠ .undef :=
   ⟨(validate_iff _ _ _).1 (by decide +kernel), by decide⟩
@@ -500,4 +594,14 @@ example : (constructExp exCfg (Val.int 1) (Val.bool true)).1 = .ok (some (Val.in
       (fun s => (runExp ⟨exCfg, 10, Val.str "a"⟩ s [.wait 4, .put (Val.int 2), .wait 7, .put (Val.bool true), .wait 4]).out))
       = some (Val.str "a") :=
   ⟨rfl, rfl, by decide +kernel⟩
+/-- the caller clears and refills its set between two puts: no effect -/
+example : ((World.new exCfg.allowed exCfg.check exCfg.schema).run
+      [.put (Val.bool true), .mutate .clear, .mutate (.add (Val.flt 1)), .put (Val.int 1),
+       .mutate (.remove (Val.int 1)), .put (Val.flt 1), .put (Val.int 3)]).out = Val.int 1 := by
+  decide +kernel
+
+/-- `exCfg`'s schema raises ZeroDivisionError for 1.0 and a custom exception for 3: both refused -/
+example : validate exCfg (Val.flt 1) = none ∧ validate exCfg (Val.int 3) = none := by
+  decide +kernel
+
 end Edzed.Validate
